@@ -248,7 +248,7 @@ class Method:
         params += [a.rust(with_attrs=not strip) for a in self.args]
         vis = "" if in_trait or not self.vis else self.vis + " "
         sig = "%sfn %s(%s) -> %s" % (vis, self.name, ", ".join(params), self.ret.rust())
-        if in_trait:
+        if in_trait and self.body == "{ todo!() }":
             lines.append(sig + ";")
         else:
             lines.append(sig + " " + self.body)
